@@ -147,13 +147,14 @@ static void derive(uint64_t base, uint64_t index, PoolShape &sh, SimConfig &cfg,
 int main(int argc, char **argv) {
   setvbuf(stdout, nullptr, _IOLBF, 0);
   sim_set_fatal_cb(on_fatal);
+  install_death_cb(&g_spec);
   if (argc < 2) { fprintf(stderr, "usage: pool_sim run <base> <first> <count> [nopcg] | replay <spec> | one <base> <index>\n"); return 2; }
   std::string mode = argv[1];
   if (mode == "run" && argc >= 5) {
     uint64_t base = strtoull(argv[2], 0, 0), first = strtoull(argv[3], 0, 0), count = strtoull(argv[4], 0, 0);
     bool pcg = !(argc > 5 && !strcmp(argv[5], "nopcg"));
     for (uint64_t i = first; i < first + count; i++) {
-      PoolShape sh; SimConfig cfg; g_run_index = i;
+      PoolShape sh; SimConfig cfg; g_run_index = i; g_death_run = i;
       derive(base, i, sh, cfg, pcg);
       cfg.keep_log = true;
       g_spec = shape_spec(sh) + "," + sched_spec(cfg);
@@ -166,7 +167,7 @@ int main(int argc, char **argv) {
   if ((mode == "one" && argc >= 4) || (mode == "replay" && argc >= 3)) {
     PoolShape sh; SimConfig cfg; std::vector<uint32_t> tb;
     g_verbose = true;
-    if (mode == "one") { g_run_index = strtoull(argv[3], 0, 0); derive(strtoull(argv[2], 0, 0), g_run_index, sh, cfg, true); }
+    if (mode == "one") { g_run_index = strtoull(argv[3], 0, 0); g_death_run = g_run_index; derive(strtoull(argv[2], 0, 0), g_run_index, sh, cfg, true); }
     else {
       Spec m = parse_spec(argv[2]);
       std::string p = spec_s(m, "pattern", "A"); sh.pattern = p[0] - 'A';
